@@ -3,7 +3,7 @@ sys.path.insert(0,'/verif')
 import vcheck, checks
 shapes=json.loads(sys.argv[1])
 keys=["tlen","qlen","k","n","e","offset","minlen","minid","plen","tpos","qpos","recall"]
-jobs=[{"pkgdir":"align/pals","func":"VerifC15_Pipeline","sched":"det","fsmodel":True,"floatsplit":True,"params":dict(zip(keys,s)),"timeout_s":1500} for s in shapes]
+jobs=[{"pkgdir":"align/pals","func":"VerifC15_Pipeline","sched":"det","fsmodel":True,"floatsplit":True,"math":True,"params":dict(zip(keys,s)),"timeout_s":1500} for s in shapes]
 checks.CHECKS["C15P"]={"jobs":lambda t:jobs,"functions":[],"explanation":"","outside":""}
 rc=vcheck.run_check("C15P","quick")
 d=json.load(open('/verif/out/gen/C15P/result.json'))
